@@ -442,12 +442,43 @@ func c19(r *ev.Result, tier string) {
 	for _, v := range best {
 		r.Violate(ev.Violation{Signature: v.Sig, What: v.What, Kind: "c19", Replay: map[string]string{"events": v.Events}})
 	}
+	/* Lock interleavings: Ctrl+O (and Ctrl+I) arriving while output or a
+	status line is being written, under every order of the lock steps. */
+	scenarios := []string{"KP", "KS", "MKP", "MKS", "KPS", "IK", "IP"}
+	parallel(len(scenarios), func(i int) {
+		out, err := runCttyWorker("c19locks", scenarios[i], base)
+		var res struct {
+			Schedules int      `json:"schedules"`
+			Steps     int      `json:"steps"`
+			Problem   string   `json:"problem"`
+			Stuck     string   `json:"stuck"`
+			Schedule  []string `json:"schedule"`
+			Err       string   `json:"err"`
+		}
+		if jerr := json.Unmarshal(out, &res); nil != jerr || nil != err || "" != res.Err {
+			ev.Broken("c19 lock-interleaving worker for %s: %v %v %s %q", scenarios[i], err, jerr, res.Err, trunc80(string(out)))
+		}
+		mu.Lock()
+		r.Evaluations += res.Schedules
+		r.Traces += res.Schedules
+		r.Transitions += res.Steps
+		r.States += res.Steps
+		r.Inc("lock_schedules", res.Schedules)
+		mu.Unlock()
+		if "" != res.Problem {
+			sig := "lock-interleaving/liveness"
+			if "" != res.Stuck {
+				sig = "lock-interleaving/deadlock/" + res.Stuck
+			}
+			r.Violate(ev.Violation{Signature: sig, What: fmt.Sprintf("operations %q issued together (K: Ctrl+O key, P: shell output, S: status line, I: Ctrl+I, leading M: already muted), lock steps in the order %v: %s", scenarios[i], res.Schedule, res.Problem), Kind: "c19locks", Replay: map[string]any{"scenario": scenarios[i], "schedule": res.Schedule}})
+		}
+	})
 	n := 0
 	for k, p := 0, 1; k <= L; k, p = k+1, p*len(c19Alphabet) {
 		n += p
 	}
-	r.States = n
-	r.Distinct = n
+	r.States += n
+	r.Distinct = r.States
 	r.Sample(4, map[string]string{"events": "OPbPaS", "meaning": "Ctrl+O, chunk (suppressed), +1.9 s, chunk (suppressed, re-arms), +0.1 s, status line (shown)"})
 	r.Sample(4, map[string]string{"events": "OcPSOO", "meaning": "Ctrl+O, +2.1 s (unmuting announced), chunk (shown), status, Ctrl+O (muting), Ctrl+O (already muted)"})
 	r.Assume("Ctrl+O is delivered by invoking the control-character callback the Shell registered with the terminal library (goxterm's key decoding is trusted)")
